@@ -144,6 +144,11 @@ pub fn append_rule(rule: Arc<Rule>) -> bool {
             err
         ),
     }
+    // lock order as in `load_rules` / `load_rules_of_resource`: `BREAKER_MAP` before `BREAKER_RULES`
+    // (taking them the other way round deadlocks against a concurrent load)
+    let mut breaker_map = BREAKER_MAP.write().unwrap();
+    #[cfg(feature = "verif_hooks")]
+    crate::verif::sync::sync_point(4);
     let breaker_rules = BREAKER_RULES.read().unwrap();
     let rules_of_res = match breaker_rules.get(&rule.resource) {
         Some(rules_of_res) => rules_of_res,
@@ -156,9 +161,6 @@ pub fn append_rule(rule: Arc<Rule>) -> bool {
         .filter(|r| r.is_valid().is_ok())
         .cloned()
         .collect();
-    #[cfg(feature = "verif_hooks")]
-    crate::verif::sync::sync_point(4);
-    let mut breaker_map = BREAKER_MAP.write().unwrap();
     let mut placeholder = Vec::new();
     // the breakers of the resource are rebuilt from all of its rules (reusing the existing ones),
     // so the whole list is replaced, as `load_rules_of_resource` does
